@@ -8,6 +8,9 @@ Three kinds of cases:
   chain   _ConditionalBackup(RunNormalizer + failing subscriber, [recorders]): the primary is the
           real normalizer, failing at each index; the backups must receive the caller's
           documents unaltered
+  writer  the real TiledWriter(client double raising at its k-th call, backup_directory=tmp, batch_size=b):
+          the JSON-lines backup must hold the run, each document once, in order, as the caller sent it
+          (end-to-end; oracle only, not sent to Coq)
 """
 import copy
 import itertools
@@ -31,7 +34,8 @@ RULE = ("norm: small-scope product of {resource+datum, resource+datum_page, curr
         "then seeded random streams (two streams, several external keys, filled flags), then a malformed stream (dropped "
         "required keys, missing datum, rename collision, unknown document name, subscriber raising at each emission index); "
         "backup: all raise patterns of primary for <=5 documents x maxlen {0,1,2,3,big} x 1..2 backups (+ random longer); "
-        "chain: the real normalizer as primary failing at each emission index. Non-trivial = at least one external reference "
+        "chain: the real normalizer as primary failing at each emission index; writer: the real TiledWriter with a JSONL "
+        "backup directory on a recording client double failing at each of its first calls x batch sizes. Non-trivial = at least one external reference "
         "converted, or a primary failure with a non-empty buffer.")
 # development knob: VERIF_C35_MODE=Shallow compares against the model of the code before the repair C35-a
 MODE = os.environ.get("VERIF_C35_MODE", "Deep")
@@ -386,6 +390,28 @@ def cases(rng, tier):
     for _ in range(15 if quick else 300):
         docs = random_run(rng)
         out.append({"kind": "chain", "docs": docs, "fail_emit": [rng.randrange(0, len(docs) + 3)], "nb": rng.randint(1, 2)})
+    # --- writer: the real TiledWriter (RunRouter + RunNormalizer + _RunWriter) on a recording client double that
+    #     raises at its k-th call, with a JSON-lines backup directory (end-to-end; oracle only)
+    try:
+        import harness.drivers.tiled_double  # noqa: F401
+        have_double = True
+    except ImportError:
+        have_double = False
+    if have_double:
+        wbases = [legacy_run("res_datum", HDF5_SPEC, "path", "seq", ("e", "e"), False, False),
+                  legacy_run("res_page", HDF5_SPEC, "dataset", "none", ("e", "e"), True, True),
+                  current_run("sres_cur", HDF5_SPEC, "path", 2, False, False)]
+        for b in wbases:
+            for k in ([None] + list(range(0, 8 if quick else 14))):
+                for bs in ((1, 3) if quick else (0, 1, 2, 3, 10000)):
+                    out.append({"kind": "writer", "docs": copy.deepcopy(b), "fail_at": [] if k is None else [k], "batch": bs})
+        for _ in range(10 if quick else 300):
+            # RunRouter itself (event_model) refuses an Event that arrives before its Datum: datums first here
+            docs = datums_first(random_run(rng))
+            for n, d in docs:
+                if n == "datum":
+                    d.setdefault("datum_kwargs", {})      # event_model.pack_datum_page needs it
+            out.append({"kind": "writer", "docs": docs, "fail_at": [rng.randrange(0, 12)], "batch": rng.choice([0, 1, 2, 5, 10000])})
     return out
 
 
@@ -516,6 +542,35 @@ def impl(case):
                 esc.append([i, classify(e)])
         return {"blog": blog, "escaped": esc, "before": before, "after": [tag(d) for _, d in docs],
                 "buffer": [ident[id(d)] for _, d in cb._buffer], "push": bool(cb._push_to_backup)}
+    if kind == "writer":
+        import glob
+        import shutil
+        import tempfile
+        from bluesky.callbacks.tiled_writer import TiledWriter
+        from harness.drivers.tiled_double import ClientDouble
+        docs = [(n, copy.deepcopy(d)) for n, d in case["docs"]]
+        before = [tag(d) for _, d in docs]
+        tmp = tempfile.mkdtemp(prefix="c35w")
+        try:
+            client = ClientDouble(fail_at=set(case["fail_at"]))
+            tw = TiledWriter(client, backup_directory=tmp, batch_size=case["batch"])
+            esc = []
+            for i, (name, d) in enumerate(docs):
+                try:
+                    tw(name, d)
+                except Exception as e:  # noqa: BLE001
+                    esc.append([i, classify(e)])
+            files = sorted(glob.glob(tmp + "/*.jsonl"))
+            backup = []
+            for f in files:
+                for line in open(f):
+                    rec = json.loads(line)
+                    backup.append([rec["name"], tag(rec["doc"])])
+            return {"backup": backup, "nfiles": len(files), "escaped": esc, "before": before,
+                    "after": [tag(d) for _, d in docs], "ncalls": client.ncalls,
+                    "injected": any(k < client.ncalls for k in case["fail_at"])}
+        finally:
+            shutil.rmtree(tmp, ignore_errors=True)
     raise ValueError(kind)
 
 
@@ -938,8 +993,40 @@ def oracle_chain(case, obs):
     return None
 
 
+def oracle_writer(case, obs):
+    if obs["escaped"]:
+        return "an exception escaped TiledWriter with a backup directory: %s" % obs["escaped"]
+    if obs["after"] != obs["before"]:
+        return "TiledWriter modified the caller's documents"
+    def unpack(recs):
+        # RunRouter hands events / datums on as one-row pages: compare document by document after unpacking
+        import event_model
+        res = []
+        for n, d in recs:
+            d = untag(d)
+            if n == "event_page":
+                res += [["event", tag(dict(e))] for e in event_model.unpack_event_page(d)]
+            elif n == "datum_page":
+                res += [["datum", tag(dict(e))] for e in event_model.unpack_datum_page(d)]
+            else:
+                res.append([n, tag(d)])
+        return res
+
+    expected = unpack([[n, b] for (n, _), b in zip(case["docs"], obs["before"])])
+    obs = dict(obs, backup=unpack(obs["backup"]))
+    if obs["backup"] == []:
+        if obs["injected"]:
+            return "the client failed at call %s but nothing was written to the backup directory" % case["fail_at"]
+        return None
+    # the primary failed (injected fault or its own error): the backup must hold the run, each document once, in order
+    if obs["backup"] != expected:
+        return ("backup file holds %d documents %s, the run has %d %s (or a document differs from what the caller sent)" % (
+            len(obs["backup"]), [n for n, _ in obs["backup"]][:12], len(expected), [n for n, _ in expected][:12]))
+    return None
+
+
 def oracle(case, obs):
-    return {"norm": oracle_norm, "backup": oracle_backup, "chain": oracle_chain}[case["kind"]](case, obs)
+    return {"norm": oracle_norm, "backup": oracle_backup, "chain": oracle_chain, "writer": oracle_writer}[case["kind"]](case, obs)
 
 
 def finding(case, obs):
@@ -955,6 +1042,8 @@ def nontrivial(case, obs):
         return any(n == "stream_datum" for n, _ in obs["out"]) and not obs["errs"]
     if case["kind"] == "backup":
         return any(case["raises"][1:]) and case["n"] > 1
+    if case["kind"] == "writer":
+        return len(obs["backup"]) > 1
     return bool(obs["push"]) and len(obs["blog"]) > 1
 
 
@@ -964,6 +1053,8 @@ def describe(case):
         return "norm:" + "/".join(t.split("/")[:3])
     if case["kind"] == "backup":
         return "backup:n=%d,nb=%d,maxlen=%s" % (min(case["n"], 6), case["nb"], "big" if case["maxlen"] > 100 else case["maxlen"])
+    if case["kind"] == "writer":
+        return "writer:batch=%s,%s" % (case["batch"], "fault" if case["fail_at"] else "nofault")
     return "chain:nb=%d" % case["nb"]
 
 
